@@ -271,6 +271,66 @@ pub fn steps_read() -> u64 {
 }
 
 // ---------------------------------------------------------------------------
+// stack monitor (second part of the hook: low-water mark of the stack pointer)
+
+type StackResetFn = fn(usize);
+type StackLowFn = fn() -> usize;
+static STACK_FAST: AtomicUsize = AtomicUsize::new(0);
+static STACK_FAST2: AtomicUsize = AtomicUsize::new(0);
+pub const STACK_LIMIT_MSG: &str = "minicbor_verif: stack depth limit exceeded";
+
+pub fn register_stack_hook(reset: StackResetFn, low: StackLowFn) {
+    STACK_FAST.store(reset as usize, Relaxed);
+    STACK_FAST2.store(low as usize, Relaxed);
+}
+
+pub fn stack_available() -> bool {
+    STACK_FAST.load(Relaxed) != 0
+}
+
+/// Measures how deep below the caller's frame the library's input accessors ran.
+/// With a budget, the hook panics (marker `STACK_LIMIT_MSG`) once the depth exceeds it,
+/// which turns runaway recursion into an observable event instead of a stack overflow.
+pub struct StackScope {
+    base: usize,
+}
+
+impl StackScope {
+    #[inline(always)]
+    pub fn begin(budget: usize) -> StackScope {
+        let probe = 0u8;
+        let base = std::ptr::addr_of!(probe) as usize;
+        let f = STACK_FAST.load(Relaxed);
+        if f != 0 {
+            let f: StackResetFn = unsafe { std::mem::transmute(f) };
+            f(if budget == 0 { 0 } else { base.saturating_sub(budget) })
+        }
+        StackScope { base }
+    }
+    /// Depth reached in bytes (0 if the hook is absent or no step ran).
+    #[inline]
+    pub fn end(self) -> usize {
+        let f2 = STACK_FAST2.load(Relaxed);
+        let low = if f2 != 0 {
+            let g: StackLowFn = unsafe { std::mem::transmute(f2) };
+            g()
+        } else {
+            usize::MAX
+        };
+        let f = STACK_FAST.load(Relaxed);
+        if f != 0 {
+            let f: StackResetFn = unsafe { std::mem::transmute(f) };
+            f(0)
+        }
+        if low == usize::MAX {
+            0
+        } else {
+            self.base.saturating_sub(low)
+        }
+    }
+}
+
+// ---------------------------------------------------------------------------
 // panic monitor
 
 #[derive(Clone, Debug)]
@@ -282,6 +342,9 @@ pub struct PanicReport {
 impl PanicReport {
     pub fn is_step_limit(&self) -> bool {
         self.message.starts_with(STEP_LIMIT_MSG)
+    }
+    pub fn is_stack_limit(&self) -> bool {
+        self.message.starts_with(STACK_LIMIT_MSG)
     }
 }
 
